@@ -32,7 +32,7 @@ pub fn reduce_impl(ctx: &Interpreter, this: CelValue, bytecode: &[&CelByteCode])
                 bindings.bind_param(&next_name, next);
                 bindings.bind_param(&curr_name, cur_value);
 
-                let interp = Interpreter::new(&cel, &bindings);
+                let interp = ctx.nested(&cel, &bindings);
                 cur_value = match interp.run_raw(bytecode[2], true) {
                     Ok(val) => val,
                     Err(err) => return err.into(),
